@@ -1,5 +1,5 @@
 (* Proofs/ViewsLen.v -- generated: T_len_only for every view type, from T_spec (Proofs/ViewsBase.len_only_of_spec). *)
-From PV Require Import Proofs.ViewsBase Proofs.Views Proofs.Views2 Proofs.Views3.
+From PV Require Import Proofs.ViewsBase Proofs.Views Proofs.Views2 Proofs.Views3 Proofs.Views4.
 Lemma ARP_len_only v v' : wf v -> wf v' -> bytes_ok (arr v) -> bytes_ok (arr v') ->
   ARP_IsValid v = Ok true -> ARP_IsValid v' = Ok true -> view v = view v' -> getters_len_only [] ARP_getters ARP_specs v v'.
 Proof. intros. eapply len_only_of_spec; eauto using ARP_spec. Qed.
@@ -60,3 +60,15 @@ Proof. intros. eapply len_only_of_spec; eauto using UDP_spec. Qed.
 Lemma U880a_len_only v v' : wf v -> wf v' -> bytes_ok (arr v) -> bytes_ok (arr v') ->
   U880a_IsValid v = Ok true -> U880a_IsValid v' = Ok true -> view v = view v' -> getters_len_only [] U880a_getters U880a_specs v v'.
 Proof. intros. eapply len_only_of_spec; eauto using U880a_spec. Qed.
+Lemma RS_len_only v v' : wf v -> wf v' -> bytes_ok (arr v) -> bytes_ok (arr v') ->
+  RS_IsValid v = Ok true -> RS_IsValid v' = Ok true -> view v = view v' -> getters_len_only [] RS_getters RS_specs v v'.
+Proof. intros. eapply len_only_of_spec; eauto using RS_spec. Qed.
+Lemma R4_len_only v v' : wf v -> wf v' -> bytes_ok (arr v) -> bytes_ok (arr v') ->
+  R4_IsValid v = Ok true -> R4_IsValid v' = Ok true -> view v = view v' -> getters_len_only [] R4_getters R4_specs v v'.
+Proof. intros. eapply len_only_of_spec; eauto using R4_spec. Qed.
+Lemma LLC_len_only v v' : wf v -> wf v' -> bytes_ok (arr v) -> bytes_ok (arr v') ->
+  LLC_IsValid v = Ok true -> LLC_IsValid v' = Ok true -> view v = view v' -> getters_len_only [] LLC_getters LLC_specs v v'.
+Proof. intros. eapply len_only_of_spec; eauto using LLC_spec. Qed.
+Lemma LLDP_len_only v v' : wf v -> wf v' -> bytes_ok (arr v) -> bytes_ok (arr v') ->
+  LLDP_IsValid v = Ok true -> LLDP_IsValid v' = Ok true -> view v = view v' -> getters_len_only [] LLDP_getters LLDP_specs v v'.
+Proof. intros. eapply len_only_of_spec; eauto using LLDP_spec. Qed.
